@@ -770,3 +770,27 @@ Proof.
   - intros C (n & Hn & Hf). rewrite (C n Hn) in Hf. discriminate.
   - intros H n Hn. destruct (plan_fails (ms_plan s) n) eqn:E; [|reflexivity]. exfalso. apply H. exists n. auto.
 Qed.
+
+Lemma TR_public {A} (f : mstate -> A * mstate) : TR f ->
+  forall s, ~ fails_between s (snd (f s)) -> f (np s) = (fst (f s), np (snd (f s))).
+Proof. intros F s H. apply F. apply clean_iff_no_fail. exact H. Qed.
+
+Theorem parse_m_fault_transparent t s : ~ fails_between s (snd (parse_m t s)) ->
+  parse_m t (np s) = (fst (parse_m t s), np (snd (parse_m t s))).
+Proof. apply (TR_public (parse_m t)). intros s0. apply prun_m_TR. Qed.
+Theorem make_owner_m_fault_transparent csize m s : ~ fails_between s (snd (make_owner_m csize m s)) ->
+  make_owner_m csize m (np s) = (fst (make_owner_m csize m s), np (snd (make_owner_m csize m s))).
+Proof. apply (TR_public (fun s => make_owner_m csize m s)). apply make_owner_m_TR. Qed.
+Theorem normalize_m_fault_transparent csize mask m s : ~ fails_between s (snd (normalize_m csize mask m s)) ->
+  normalize_m csize mask m (np s) = (fst (normalize_m csize mask m s), np (snd (normalize_m csize mask m s))).
+Proof. apply (TR_public (fun s => normalize_m csize mask m s)). apply normalize_m_TR. Qed.
+Theorem add_base_m_fault_transparent compat rel base s : ~ fails_between s (snd (add_base_m compat rel base s)) ->
+  add_base_m compat rel base (np s) = (fst (add_base_m compat rel base s), np (snd (add_base_m compat rel base s))).
+Proof. apply (TR_public (add_base_m compat rel base)). apply add_base_m_TR. Qed.
+Theorem remove_base_m_fault_transparent domain_root src base s : ~ fails_between s (snd (remove_base_m domain_root src base s)) ->
+  remove_base_m domain_root src base (np s) = (fst (remove_base_m domain_root src base s), np (snd (remove_base_m domain_root src base s))).
+Proof. apply (TR_public (remove_base_m domain_root src base)). apply remove_base_m_TR. Qed.
+Theorem free_members_plan_independent m s :
+  free_members m (np s) = (fst (free_members m s), np (snd (free_members m s)))
+  /\ ms_requests (snd (free_members m s)) = ms_requests s.
+Proof. destruct (free_members_np m s) as (a & _ & c). auto. Qed.
